@@ -442,7 +442,7 @@ def detectors(ctx):
     hx = lambda d: (repr(getattr(d, "current_distance", None)), repr(getattr(d, "beta", None)), digest(getattr(d, "distances", None)),
                     digest(getattr(d, "epsilon_values", None)), digest(getattr(d, "thresholds", None)), digest(getattr(d, "reference", None)))
     # budget: (histories, ordered container pairs, malformed variants per kind and (assignment, position)) for quick / thorough
-    CH, EX = ((1, 8, 2), (2, 20, 99)), ((1, 2, 1), (2, 8, 3))
+    CH, EX = ((1, 8, 2), (2, 14, 6)), ((1, 2, 1), (2, 6, 3))
     S = [
         dict(name="ADWIN", mode="stream", kind="uni", w=1, L=10, make=lambda: ADWIN(delta=0.5, **aw), shifts=(5,),
              extra=lambda d: (repr(d.retraining_recs), repr(d.mean()), repr(d.variance())), budget=CH),
@@ -665,7 +665,9 @@ def check_injection(ctx, drv, spec, calls, twin, bad_kind, bad, pos, case_seed, 
         report(ctx, signature=KNOWN_GAP, what=name + " did not reject a DataFrame whose width differs from the dimension established by "
                  "earlier array/list input (outcome: %s)" % ec, **desc)
         ctx.count("B:known-gap:" + name)
-        drv.add(model_lines(spec, seq[:pos + 1]), [None] + impl_dec[:pos] + ["dec ok | " + st_after])
+        # (the frame got past validation; HDDDM/CDBD(detect_batch=1) may still refuse it afterwards -- a 2-row reference cannot be
+        # split, known finding of C07 -- with the width / names already recorded: the model says the same)
+        drv.add(model_lines(spec, seq[:pos + 1]), [None] + impl_dec[:pos] + [("dec ok | " if ec == "none" else "dec rej | ") + st_after])
         return
     if ec == "none":
         report(ctx, signature={"class": "malformed-accepted", "detector": name, "kind": bad_kind},
@@ -690,6 +692,52 @@ def check_injection(ctx, drv, spec, calls, twin, bad_kind, bad, pos, case_seed, 
                      what="trace after the rejected call differs from the twin that never saw it", first_differing_call=i,
                      with_rejected_call=main[i][:2], twin=twin[i][:2], **desc)
             return
+
+
+def check_probe(ctx, spec, calls, twin, probe_kind, probe, pos, case_seed):
+    """A call whose acceptance the property leaves open (an observation holding NaN / inf, a single-column observation as the very
+    first input of a multivariate detector) is injected before valid call `pos`.  If the detector accepts it nothing is claimed
+    (the history is a different one).  If it REJECTS it -- whatever the reason -- the second sentence of the property applies: the
+    rejected call is not counted and every later accepted update reports what the twin that never saw it reports."""
+    name = spec["name"]
+    main, rec = run_history(spec, calls, case_seed, probe, pos)
+    ec, before, after, st_after, msg, st_before = rec
+    if ec == "none":
+        ctx.count("B:probe-accepted:" + probe_kind)
+        return
+    ctx.count("B:probe-rejected:" + probe_kind)
+    ctx.case((name, "probe", probe_kind, pos, case_seed), True)
+    name = name.split("(")[0].split("[")[0]                      # the class, whatever the configuration
+    probe_kind = "nonfinite" if probe_kind in ("nan", "inf") else probe_kind
+    desc = case_desc(spec, calls, probe, pos, case_seed)
+    pending = before[2] != "N"
+    tot_ok = after[0] == before[0] or (pending and spec.get("early_count") and after[0] == before[0] + 1)
+    rest_ok = after[1:] == before[1:] or (pending and after[2] == "N")
+    if not tot_ok or not rest_ok:
+        report(ctx, signature={"class": "rejected-call-left-traces", "detector": name, "kind": probe_kind},
+               what="a call the detector rejected (%s: %s) was counted / changed drift_state" % (ec, probe_kind), before=before, after=after, **desc)
+        return
+    for i in range(pos, len(calls)):
+        if main[i][:2] != twin[i][:2]:
+            report(ctx, signature={"class": "rejected-call-harms-later-updates", "detector": name, "kind": probe_kind},
+                   what="trace after a call the detector rejected (%s: %s) differs from the twin that never saw it" % (ec, probe_kind),
+                   first_differing_call=i, with_rejected_call=main[i][:2], twin=twin[i][:2], **desc)
+            return
+
+
+def probe_inputs(spec, rng):
+    mode, w = spec["mode"], spec["w"]
+    rows = 1 if mode == "stream" else spec["rows"]
+    v = lambda r, c: np.round(rng.normal(size=(r, c)) * 8) / 8
+    out = []
+    for tag, val in (("nan", float("nan")), ("inf", float("inf"))):
+        M = v(rows, w); M[0, 0] = val
+        for cont in (("a2", "df") + (("sc",) if (mode == "stream" and w == 1) else ())):
+            x = Inp(cont, M.ravel(), rows, w, NAMES[:w] if cont == "df" else None) if cont != "sc" else Inp("sc", [val])
+            out.append((tag, ("update", [x])))
+    if w > 1:
+        out.append(("one-column-first", ("update" if mode == "stream" else "set_reference", [from_matrix(mode, "a2", v(rows, 1))])))
+    return out
 
 
 def part_b(ctx, drv, only=None):
@@ -786,6 +834,11 @@ def part_b(ctx, drv, only=None):
                             ctx.count("B:injected-at:%s" % ("start" if pos == 0 else "end" if pos == L else "middle"))
                             ctx.case((name, h, ai, pos, bi), True)
                             check_injection(ctx, drv, spec, calls, twin, kind, (method, args), pos, case_seed, rules[pos])
+                # probes: calls whose acceptance the property leaves open; when the detector rejects one, "no harm" applies
+                if ai == 0 and spec["kind"] not in LAB:
+                    for pk, probe in probe_inputs(spec, hrng):
+                        for pos in ((0,) if pk == "one-column-first" else (0, L // 2, L)):
+                            check_probe(ctx, spec, calls, twin, pk, probe, pos, case_seed)
     ctx.extra["drifts_in_valid_histories"] = drifts
     nodrift = [n for n, d in drifts.items() if d == 0]
     if nodrift:
